@@ -17,7 +17,7 @@ for f in sorted(glob.glob('/verif/seeded/*/meta.json')):
     first = re.sub(r'\s+', ' ', first)[:170].replace('|', '/')
     own = m['breaks_property'] in m['caught_by']
     rows.append('| %s | %s | %s | %s |' % (m['id'], first, ', '.join(m['caught_by']) or '**none**',
-                                           'yes' if own else 'no') + (' (after strengthening)' if m.get('caught_by_later') else ''))
+                                           ('yes' if own else 'no') + (' (after strengthening)' if m.get('caught_by_later') else '')))
 table = ['| seeded change | what it does / needs (first line of its notes) | reported by (quick tier) | by its own property\'s check |',
          '|---|---|---|---|'] + rows
 text = open('/verif/DESIGN.md', encoding='utf8').read()
